@@ -325,7 +325,7 @@ impl Typed for C01 {
         let net = if rng.chance(1, 2) {
             NetCfg::default()
         } else {
-            NetCfg { drop_pm: *rng.pick(&[0u32, 0, 20, 100]), dup_pm: *rng.pick(&[0u32, 0, 100]), reorder_pm: *rng.pick(&[0u32, 0, 200]), delay_max_ms: *rng.pick(&[0u64, 2, 30, 120]) }
+            NetCfg { drop_pm: *rng.pick(&[0u32, 0, 20, 100]), dup_pm: *rng.pick(&[0u32, 0, 100]), reorder_pm: *rng.pick(&[0u32, 0, 200]), delay_max_ms: *rng.pick(&[0u64, 2, 30, 120]), ..Default::default() }
         };
         Case { net, scenario, seed: rng.next_u64() }
     }
@@ -438,12 +438,12 @@ impl Typed for C01 {
                     for t in tasks {
                         t.abort();
                     }
-                    cl.close().await;
+                    let _ = tokio::time::timeout(Duration::from_secs(30), cl.close()).await;
                     if let Some(r) = real {
-                        r.close().await;
+                        let _ = tokio::time::timeout(Duration::from_secs(30), r.close()).await;
                     }
                     if let Some(i) = imp {
-                        i.close().await;
+                        let _ = tokio::time::timeout(Duration::from_secs(30), i.close()).await;
                     }
                 }
                 Scenario::DialRawServer(forge) => {
@@ -509,7 +509,7 @@ impl Typed for C01 {
                         ctx.count("probe.forged_server_refused");
                     }
                     acc.abort();
-                    cl.close().await;
+                    let _ = tokio::time::timeout(Duration::from_secs(30), cl.close()).await;
                     raw.close(0u32.into(), b"");
                 }
                 Scenario::RawClient(forge) => {
@@ -585,7 +585,7 @@ impl Typed for C01 {
                     }
                     t.abort();
                     raw.close(0u32.into(), b"");
-                    server.close().await;
+                    let _ = tokio::time::timeout(Duration::from_secs(30), server.close()).await;
                 }
             }
             ctx.add("fault.packets_dropped", net.log().iter().filter(|p| p.fate == "dropped").count() as u64);
